@@ -67,6 +67,7 @@ func (ww *conversionVisitor) visitServiceNode(node *sourcewalk.ServiceNode) {
 
 	if node.ServiceOptions != nil {
 		service.desc.Options = &descriptorpb.ServiceOptions{}
+		ww.file.ensureImport(j5ExtImport)
 		proto.SetExtension(service.desc.Options, ext_j5pb.E_Service, node.ServiceOptions)
 	}
 
@@ -152,10 +153,12 @@ func (ww *conversionVisitor) visitServiceMethodNode(service *serviceBuilder, nod
 	proto.SetExtension(methodBuilder.desc.Options, annotations.E_Http, annotation)
 
 	if method.Options != nil {
+		ww.file.ensureImport(j5ExtImport)
 		proto.SetExtension(methodBuilder.desc.Options, ext_j5pb.E_Method, method.Options)
 	}
 
 	if method.ListRequest != nil {
+		ww.file.ensureImport(j5ListAnnotationsImport)
 		proto.SetExtension(methodBuilder.desc.Options, list_j5pb.E_ListRequest, method.ListRequest)
 	}
 	service.desc.Method = append(service.desc.Method, methodBuilder.desc)
